@@ -26,8 +26,9 @@ within each kind — `Spec.schemaOrder es`.
 * `hsup`: `SchemaEntry.Supported` — non-empty name and table name, sql not the empty string.  This
   is a restriction of the *tool*: `CREATE TABLE ""(a)` is legal and is refused
   (`schema_rows_full_false`);
-* by-name lookup only: the name is unique among all entries (`table_rows_by_name_full_false`: a
-  trigger may legally carry the name of a table).
+* by-name lookups: no other entry *of the same kind* (table, resp. index) carries the name — what
+  SQLite guarantees.  (Before commit c7e48c5 of /repo the dictionary was built over all entries and
+  a trigger named like a table replaced it: `old_lookup_shadowed`.)
 The DDL text parsing of the row classes (`Model/Schema.lean`) is not part of `parseMasterSchema`
 (see its header comment), so no hypothesis about the sql text is needed here.
 -/
@@ -99,12 +100,13 @@ theorem schema_rows_full_false : ¬ SchemaRowsFull := by
   exact absurd hrej (by decide)
 
 /-- **table_rows_by_name.**  Under the hypotheses of `schema_rows` (rowids of the schema rows
-pairwise distinct), for an entry `e ∈ es` of type table with `rootpage = r` and a table b-tree `T`
-rooted at page `r` laid out in the same `v`:
+pairwise distinct), for an entry `e ∈ es` of type table with `rootpage = r`, no other entry *of
+type table* carrying its name (`huniq`: what SQLite guarantees — tables, views and indexes share
+one name space; triggers have their own and are not looked at), and a table b-tree `T` rooted at
+page `r` laid out in the same `v`:
 * the root page tracked for the entry's identity (`VersionParser`: `rootOf ms e.ident`) is `r`;
-* when no other entry carries the same name, the by-name dictionary of
-  `interface.select_all_from_table` yields `r`, and `selectAllFromTable` returns the aggregate of
-  the tree constructed at `r`;
+* the by-name dictionary of `interface.select_all_from_table` (entries of type table only) yields
+  `r`, and `selectAllFromTable` returns the aggregate of the tree constructed at `r`;
 * `r` (when not 0) is among `master_schema_b_tree_root_page_numbers`;
 * `get_b_tree_root_page(r)` succeeds and the rows reported — by the leaf pages and by the
   `aggregate_leaf_cells` dictionary — are the rows of `T`, in traversal order. -/
@@ -116,57 +118,64 @@ theorem table_rows_by_name (v : VersionIf) (hu : 512 ≤ v.pageSize) (hu2 : v.pa
     (es : List SchemaEntry) (hes : StoredSchemaRows enc Ts.leafCells es)
     (hwf : ∀ e ∈ es, e.WellFormed) (hsup : ∀ e ∈ es, e.Supported)
     (e : SchemaEntry) (he : e ∈ es) (hty : e.type = "table") (r : Nat) (hr : e.rootpage = some (r : Int))
+    (huniq : ∀ e' ∈ es, e'.type = "table" → e'.name = e.name → e' = e)
     (T : TTree) (hTp : T.page = r) (hTl : TreeLaidOut v true T) (framesT : Nat) (hfT : T.frames ≤ framesT)
     (hpdT : T.PagesDistinct) (hndT : (T.leafCells.map (·.rowid)).Nodup) :
     ∃ t ms tt, getBTreeRoot v frames 1 = .ok t ∧ (∀ v' : VersionIf, parseMasterSchema v' enc t = .ok ms) ∧
       rootOf ms e.ident = some (.int r) ∧
-      ((∀ e' ∈ es, e'.name = e.name → e' = e) →
-        (entryByName ms e.name).map (·.rootPage) = some (.int r) ∧
-        selectAllFromTable v framesT ms e.name = .ok ((aggregateLeafCells tt []).1, (aggregateLeafCells tt []).2.1)) ∧
+      (tableByName ms e.name).map (·.rootPage) = some (.int r) ∧
+      selectAllFromTable v framesT ms e.name = .ok ((aggregateLeafCells tt []).1, (aggregateLeafCells tt []).2.1) ∧
       (r ≠ 0 → r ∈ ms.rootNumbers) ∧
       getBTreeRoot v framesT r = .ok tt ∧
       (leafCells tt).map Spec.cellRow = T.leafCells.map CellSpec.row ∧
       (aggregateLeafCells tt []).1 = T.leafCells.length ∧
       (aggregateLeafCells tt []).2.1.map (fun x => Spec.cellRow x.2) = T.leafCells.map CellSpec.row := by
   exact Proofs.SchemaRows.table_rows_by_name v hu hu2 enc henc Ts hp1 hT frames hf hpd hnd hleaf es hes hwf hsup
-    e he hty r hr T hTp hTl framesT hfT hpdT hndT
+    e he hty r hr huniq T hTp hTl framesT hfT hpdT hndT
 
-/-- the by-name part of `table_rows_by_name` without the uniqueness of the name -/
-def TableRowsByNameFull : Prop :=
-  ∀ (v : VersionIf) (_ : 512 ≤ v.pageSize) (_ : v.pageSize ≤ 65536)
-    (enc : Nat) (_ : enc = 1 ∨ enc = 2 ∨ enc = 3)
-    (Ts : TTree) (_ : Ts.page = 1) (_ : TreeLaidOut v true Ts) (frames : Nat) (_ : Ts.frames ≤ frames)
-    (_ : Ts.PagesDistinct) (_ : (Ts.leafCells.map (·.rowid)).Nodup)
-    (_ : ∀ nd ∈ Ts.nodes true, nd.2.1.isInterior = false → nd.2.2 = [] → nd.1 = 1)
-    (es : List SchemaEntry) (_ : StoredSchemaRows enc Ts.leafCells es)
-    (_ : ∀ e ∈ es, e.WellFormed) (_ : ∀ e ∈ es, e.Supported)
-    (e : SchemaEntry) (_ : e ∈ es) (_ : e.type = "table") (r : Nat) (_ : e.rootpage = some (r : Int))
-    (T : TTree) (_ : T.page = r) (_ : TreeLaidOut v true T),
-    ∃ t ms, getBTreeRoot v frames 1 = .ok t ∧ parseMasterSchema v enc t = .ok ms ∧
-      (entryByName ms e.name).map (·.rootPage) = some (.int r)
+/-- **index_entries_by_name.**  The same for an entry of type index and an index b-tree `T` rooted
+at its root page: `select_all_from_index` finds it among the entries of type index and returns the
+aggregate of the tree; every entry of the index — interior cells included — is reported
+(`C01Tree.index_tree_entries`). -/
+theorem index_entries_by_name (v : VersionIf) (hu : 512 ≤ v.pageSize) (hu2 : v.pageSize ≤ 65536)
+    (enc : Nat) (henc : enc = 1 ∨ enc = 2 ∨ enc = 3)
+    (Ts : TTree) (hp1 : Ts.page = 1) (hT : TreeLaidOut v true Ts) (frames : Nat) (hf : Ts.frames ≤ frames)
+    (hpd : Ts.PagesDistinct) (hnd : (Ts.leafCells.map (·.rowid)).Nodup)
+    (hleaf : ∀ nd ∈ Ts.nodes true, nd.2.1.isInterior = false → nd.2.2 = [] → nd.1 = 1)
+    (es : List SchemaEntry) (hes : StoredSchemaRows enc Ts.leafCells es)
+    (hwf : ∀ e ∈ es, e.WellFormed) (hsup : ∀ e ∈ es, e.Supported)
+    (e : SchemaEntry) (he : e ∈ es) (hty : e.type = "index") (r : Nat) (hr : e.rootpage = some (r : Int))
+    (huniq : ∀ e' ∈ es, e'.type = "index" → e'.name = e.name → e' = e)
+    (T : TTree) (hTp : T.page = r) (hTl : TreeLaidOut v false T) (framesT : Nat) (hfT : T.frames ≤ framesT)
+    (hpdT : T.PagesDistinct) :
+    ∃ t ms tt, getBTreeRoot v frames 1 = .ok t ∧ (∀ v' : VersionIf, parseMasterSchema v' enc t = .ok ms) ∧
+      rootOf ms e.ident = some (.int r) ∧
+      (indexByName ms e.name).map (·.rootPage) = some (.int r) ∧
+      selectAllFromIndex v framesT ms e.name = .ok ((aggregateLeafCells tt []).1, (aggregateLeafCells tt []).2.1) ∧
+      (r ≠ 0 → r ∈ ms.rootNumbers) ∧
+      getBTreeRoot v framesT r = .ok tt ∧
+      Elementwise (fun s c => CellSpec.ReportedAs v.pageSize s c) T.allCells (tt.flatMap (·.cells)) ∧
+      (tt.flatMap (·.cells)).map Spec.cellRow = T.allCells.map CellSpec.row ∧
+      Elementwise (fun s c => CellSpec.ReportedAs v.pageSize s c) T.leafCells (leafCells tt) ∧
+      (aggregateLeafCells tt []).1 = T.leafCells.length := by
+  exact Proofs.SchemaRows.index_entries_by_name v hu hu2 enc henc Ts hp1 hT frames hf hpd hnd hleaf es hes hwf hsup
+    e he hty r hr huniq T hTp hTl framesT hfT hpdT
 
 open Proofs.SchemaRows.Demo in
-/-- **finding.**  A database with `CREATE TABLE t(a,b)` (root page 3) and
-`CREATE TRIGGER t AFTER INSERT ON u …` — legal: triggers have their own name space —
-`select_all_from_table("t", …)` looks the name up in a dictionary in which the trigger, listed
-last, has replaced the table, and asks for the b-tree at the trigger's root page 0 (the code:
-`ValueError: Invalid page number: 0`).  The identity-keyed tracking (`rootOf`) is not affected. -/
-theorem table_rows_by_name_full_false : ¬ TableRowsByNameFull := by
-  intro hfull
-  obtain ⟨hst, hwf, hsup, hT, hTt, hev⟩ := name_collision
-  obtain ⟨t, ms, ht, hms, hlook⟩ := hfull schemaVC (by decide) (by decide) 1 (Or.inl rfl) schemaTreeC rfl hT 1
-    (by simp [schemaTreeC, TTree.frames]) (by simp [TTree.PagesDistinct, schemaTreeC, TTree.nodes])
-    (by rw [schemaTreeC_leafCells]; decide)
-    (by
-      intro nd hnd _ hempty
-      simp only [schemaTreeC, TTree.nodes, List.mem_singleton] at hnd
-      rw [hnd] at hempty
-      exact absurd hempty (by simp))
-    [entryT, entryTrig] hst hwf hsup entryT List.mem_cons_self rfl 3 rfl tableTree rfl hTt
-  rw [ht] at hev
-  simp only [hms, decide_eq_true_eq] at hev
-  rw [hev.1] at hlook
-  exact absurd hlook (by decide)
+/-- **witness of a repaired finding** (ledger: the by-name dictionary over all entries; repaired by
+commit c7e48c5 of /repo).  On a stub holding `CREATE TABLE t(a,b)` (root page 3) and
+`CREATE TRIGGER t AFTER INSERT ON u …` — legal: triggers have their own name space — laid out as
+SQLite lays it out, the *old* lookup (`entryByNameOld`: name-keyed dictionary over all entries, the
+trigger, listed last, replacing the table) handed back the trigger's root page 0 for the table `t`
+(the code then failed with `ValueError: Invalid page number: 0`); evaluated by the kernel. -/
+theorem old_lookup_shadowed :
+    TreeLaidOut schemaVC true schemaTreeC ∧ StoredSchemaRows 1 schemaTreeC.leafCells [entryT, entryTrig] ∧
+    (match getBTreeRoot schemaVC 1 1 with
+      | .ok t => (match parseMasterSchema schemaVC 1 t with
+        | .ok ms => decide ((entryByNameOld ms entryT.name).map (·.rootPage) = some (.int 0))
+        | .error _ => false)
+      | .error _ => false) = true := by
+  exact ⟨collision_hyps.2.2.2.2.1, collision_hyps.1, Proofs.SchemaRows.Demo.old_lookup_shadowed⟩
 
 /-- **version `k` of a WAL history** (composition with `C02Rows`): schema b-tree and table b-tree
 laid out in SQLite's snapshot after the `k`-th commit; the same conclusions for the version's own
@@ -186,6 +195,7 @@ theorem version_table_rows_by_name (cfg : Config) (db : Database) (dbv : Version
     (es : List SchemaEntry) (hes : StoredSchemaRows enc Ts.leafCells es)
     (hwf : ∀ e ∈ es, e.WellFormed) (hsup : ∀ e ∈ es, e.Supported)
     (e : SchemaEntry) (he : e ∈ es) (hty : e.type = "table") (r : Nat) (hr : e.rootpage = some (r : Int))
+    (huniq : ∀ e' ∈ es, e'.type = "table" → e'.name = e.name → e' = e)
     (T : TTree) (hTp : T.page = r)
     (hTl : TreeLaidOut (snapshotIf cfg.strict dbv db.dbSize.floor w.fh w.hdr.pageSize
       (groupFrames w.frames [] []).1 k) true T)
@@ -193,16 +203,49 @@ theorem version_table_rows_by_name (cfg : Config) (db : Database) (dbv : Version
     (hpdT : T.PagesDistinct) (hndT : (T.leafCells.map (·.rowid)).Nodup) :
     ∃ t ms tt, getBTreeRoot v frames 1 = .ok t ∧ (∀ v' : VersionIf, parseMasterSchema v' enc t = .ok ms) ∧
       rootOf ms e.ident = some (.int r) ∧
-      ((∀ e' ∈ es, e'.name = e.name → e' = e) →
-        (entryByName ms e.name).map (·.rootPage) = some (.int r) ∧
-        selectAllFromTable v framesT ms e.name = .ok ((aggregateLeafCells tt []).1, (aggregateLeafCells tt []).2.1)) ∧
+      (tableByName ms e.name).map (·.rootPage) = some (.int r) ∧
+      selectAllFromTable v framesT ms e.name = .ok ((aggregateLeafCells tt []).1, (aggregateLeafCells tt []).2.1) ∧
       (r ≠ 0 → r ∈ ms.rootNumbers) ∧
       getBTreeRoot v framesT r = .ok tt ∧
       (leafCells tt).map Spec.cellRow = T.leafCells.map CellSpec.row ∧
       (aggregateLeafCells tt []).1 = T.leafCells.length ∧
       (aggregateLeafCells tt []).2.1.map (fun x => Spec.cellRow x.2) = T.leafCells.map CellSpec.row := by
   exact Proofs.SchemaRows.version_table_rows_by_name cfg db dbv w vs h k ver v hk hdb0 hu hu2 enc henc Ts hp1 hT
-    frames hf hpd hnd hleaf es hes hwf hsup e he hty r hr T hTp hTl framesT hfT hpdT hndT
+    frames hf hpd hnd hleaf es hes hwf hsup e he hty r hr huniq T hTp hTl framesT hfT hpdT hndT
+
+/-- … and for an index of version `k` -/
+theorem version_index_entries_by_name (cfg : Config) (db : Database) (dbv : VersionIf) (w : Wal)
+    (vs : List (Version × VersionIf)) (h : versionHistory cfg db dbv (some w) = .ok vs)
+    (k : Nat) (ver : Version) (v : VersionIf) (hk : vs[k]? = some (ver, v))
+    (hdb0 : k = 0 → ∃ f, dbv = dbVersionIf cfg w.hdr.pageSize db.dbSize f)
+    (hu : 512 ≤ w.hdr.pageSize) (hu2 : w.hdr.pageSize ≤ 65536)
+    (enc : Nat) (henc : enc = 1 ∨ enc = 2 ∨ enc = 3)
+    (Ts : TTree) (hp1 : Ts.page = 1)
+    (hT : TreeLaidOut (snapshotIf cfg.strict dbv db.dbSize.floor w.fh w.hdr.pageSize
+      (groupFrames w.frames [] []).1 k) true Ts)
+    (frames : Nat) (hf : Ts.frames ≤ frames)
+    (hpd : Ts.PagesDistinct) (hnd : (Ts.leafCells.map (·.rowid)).Nodup)
+    (hleaf : ∀ nd ∈ Ts.nodes true, nd.2.1.isInterior = false → nd.2.2 = [] → nd.1 = 1)
+    (es : List SchemaEntry) (hes : StoredSchemaRows enc Ts.leafCells es)
+    (hwf : ∀ e ∈ es, e.WellFormed) (hsup : ∀ e ∈ es, e.Supported)
+    (e : SchemaEntry) (he : e ∈ es) (hty : e.type = "index") (r : Nat) (hr : e.rootpage = some (r : Int))
+    (huniq : ∀ e' ∈ es, e'.type = "index" → e'.name = e.name → e' = e)
+    (T : TTree) (hTp : T.page = r)
+    (hTl : TreeLaidOut (snapshotIf cfg.strict dbv db.dbSize.floor w.fh w.hdr.pageSize
+      (groupFrames w.frames [] []).1 k) false T)
+    (framesT : Nat) (hfT : T.frames ≤ framesT) (hpdT : T.PagesDistinct) :
+    ∃ t ms tt, getBTreeRoot v frames 1 = .ok t ∧ (∀ v' : VersionIf, parseMasterSchema v' enc t = .ok ms) ∧
+      rootOf ms e.ident = some (.int r) ∧
+      (indexByName ms e.name).map (·.rootPage) = some (.int r) ∧
+      selectAllFromIndex v framesT ms e.name = .ok ((aggregateLeafCells tt []).1, (aggregateLeafCells tt []).2.1) ∧
+      (r ≠ 0 → r ∈ ms.rootNumbers) ∧
+      getBTreeRoot v framesT r = .ok tt ∧
+      Elementwise (fun s c => CellSpec.ReportedAs w.hdr.pageSize s c) T.allCells (tt.flatMap (·.cells)) ∧
+      (tt.flatMap (·.cells)).map Spec.cellRow = T.allCells.map CellSpec.row ∧
+      Elementwise (fun s c => CellSpec.ReportedAs w.hdr.pageSize s c) T.leafCells (leafCells tt) ∧
+      (aggregateLeafCells tt []).1 = T.leafCells.length := by
+  exact Proofs.SchemaRows.version_index_entries_by_name cfg db dbv w vs h k ver v hk hdb0 hu hu2 enc henc Ts hp1 hT
+    frames hf hpd hnd hleaf es hes hwf hsup e he hty r hr huniq T hTp hTl framesT hfT hpdT
 
 /-- … and this `(t, ms)` is what `version.root_page` / `version.master_schema` are observed to be
 for a commit record that did not modify the schema (it re-parses page 1 under itself).  (A record
@@ -233,7 +276,7 @@ lookups give root page 3, `master_schema_b_tree_root_page_numbers = [3]`, and th
 `(1; 7, 'hi')` -/
 example : ∃ t ms tt,
     getBTreeRoot schemaV 1 1 = .ok t ∧ parseMasterSchema schemaV 1 t = .ok ms ∧
-    rootOf ms entryX.ident = some (.int 3) ∧ (entryByName ms [120]).map (·.rootPage) = some (.int 3) ∧
+    rootOf ms entryX.ident = some (.int 3) ∧ (tableByName ms [120]).map (·.rootPage) = some (.int 3) ∧
     ms.rootNumbers = [3] ∧
     getBTreeRoot schemaV 1 3 = .ok tt ∧
     (leafCells tt).map Spec.cellRow = [(some 1, some [⟨1, 1, 1, .int 7⟩, ⟨17, 1, 2, .text [104, 105]⟩])] :=
@@ -247,6 +290,47 @@ example : (match getBTreeRoot schemaV 1 1 with
           [⟨1, "table", [120], [120], .int 3, some sqlX, 1, []⟩] ∧ ms.rootNumbers = [3])
       | .error _ => false)
     | .error _ => false) = true := by decide +kernel
+
+open Proofs.SchemaRows.Demo in
+/-- the stub with the table `t` and the trigger `t`: the repaired lookups, evaluated by the kernel
+independently of the theorems — `tableByName` and `tableOrIndexByName` give the table's root page 3,
+`indexByName` finds nothing, the tracking identity gives 3, `selectAllFromTable` returns one cell,
+the row `(1; 7, 'hi')` -/
+example :
+    (match getBTreeRoot schemaVC 1 1 with
+      | .ok t => (match parseMasterSchema schemaVC 1 t with
+        | .ok ms => decide ((tableByName ms entryT.name).map (·.rootPage) = some (.int 3) ∧
+            (tableOrIndexByName ms entryT.name).map (·.rootPage) = some (.int 3) ∧
+            (indexByName ms entryT.name).map (·.rootPage) = none ∧
+            rootOf ms entryT.ident = some (.int 3)) &&
+          (match selectAllFromTable schemaVC 1 ms entryT.name with
+            | .ok (n, d) => decide (n = 1 ∧ d.map (fun x => Spec.cellRow x.2) =
+                [(some 1, some [⟨1, 1, 1, .int 7⟩, ⟨17, 1, 2, .text [104, 105]⟩])])
+            | .error _ => false)
+        | .error _ => false)
+      | .error _ => false) = true := Proofs.SchemaRows.Demo.new_lookup_on_collision
+
+open Proofs.SchemaRows.Demo in
+/-- … and `table_rows_by_name` applies to it (the trigger is not of type table): root 3, the row -/
+example : ∃ t ms tt,
+    getBTreeRoot schemaVC 1 1 = .ok t ∧ parseMasterSchema schemaVC 1 t = .ok ms ∧
+    (tableByName ms entryT.name).map (·.rootPage) = some (.int 3) ∧
+    selectAllFromTable schemaVC 1 ms entryT.name = .ok ((aggregateLeafCells tt []).1, (aggregateLeafCells tt []).2.1) ∧
+    (leafCells tt).map Spec.cellRow = [(some 1, some [⟨1, 1, 1, .int 7⟩, ⟨17, 1, 2, .text [104, 105]⟩])] :=
+  Proofs.SchemaRows.Demo.collision_table_rows
+
+open Proofs.SchemaRows.Demo in
+/-- a stub with a table `x` (root 3) and an index `ix` (root 7 = `TreeDemo.page7`): every hypothesis
+of `index_entries_by_name` holds, the index is found at root page 7 and its three entries are
+reported -/
+example : ∃ t ms tt,
+    getBTreeRoot schemaVI 1 1 = .ok t ∧ parseMasterSchema schemaVI 1 t = .ok ms ∧
+    (indexByName ms entryIx.name).map (·.rootPage) = some (.int 7) ∧
+    selectAllFromIndex schemaVI 1 ms entryIx.name = .ok ((aggregateLeafCells tt []).1, (aggregateLeafCells tt []).2.1) ∧
+    (aggregateLeafCells tt []).1 = 3 ∧
+    (tt.flatMap (·.cells)).map Spec.cellRow =
+      [(none, some [⟨8, 1, 0, .int 0⟩]), (none, some [⟨9, 1, 0, .int 1⟩]), (none, some [⟨13, 1, 0, .text []⟩])] :=
+  Proofs.SchemaRows.Demo.demo_index_entries_by_name
 
 /-- UTF-16: the type column `'table'` in UTF-16le / UTF-16be is recognised and decoded -/
 example : Spec.kindOfBytes 2 [116, 0, 97, 0, 98, 0, 108, 0, 101, 0] = some "table" ∧
